@@ -18,6 +18,7 @@ let parse_op (o : string) : lop option =
   try
     match split ':' o with
     | ["k"] -> Some LCancel
+    | ["xP"] -> Some LPlain
     | ["G"] -> Some LGate
     | ["U"] -> Some LUngate
     | [a] when a.[0] = 'q' -> Some (LQuit (num (rest_of a)))
@@ -41,7 +42,7 @@ let parse_op (o : string) : lop option =
 
 let tok (x : lobs) : string =
   match x with
-  | XDot -> "." | XQ -> "?" | XRefused -> "refused" | XHeld -> "held" | XAccepted -> "accepted"
+  | XDropped -> "dropped" | XDot -> "." | XQ -> "?" | XRefused -> "refused" | XHeld -> "held" | XAccepted -> "accepted"
   | XCode c -> string_of_int (int_of_nat c)
   | XOk -> "+OK"
   | XFinS (d, q, n) ->
@@ -51,7 +52,7 @@ let tok (x : lobs) : string =
 
 let parse_obs (t : string) : lobs =
   match t with
-  | "." -> XDot | "?" -> XQ | "refused" -> XRefused | "held" -> XHeld | "accepted" -> XAccepted
+  | "dropped" -> XDropped | "." -> XDot | "?" -> XQ | "refused" -> XRefused | "held" -> XHeld | "accepted" -> XAccepted
   | "+OK" -> XOk | "returned" -> XReturned | "blocked" -> XBlocked | "joined" -> XJoined | "ok" -> XFine
   | _ ->
     (try
@@ -79,7 +80,7 @@ let () =
   Mlutil.iter_lines (fun line ->
     let (kind, ins, outs) = Mlutil.split_case line in
     match kind, ins with
-    | "life", [ops] ->
+    | ("life" | "tls"), [ops] ->
         let toks = if ops = "-" then [] else split ',' ops in
         let lops = List.map parse_op toks in
         if List.exists (fun x -> x = None) lops then Mlutil.print_model ["BADOPS"] "ok"
